@@ -25,6 +25,7 @@ import (
 	"github.com/influxdata/influxdb/pkg/file"
 	"github.com/influxdata/influxdb/pkg/limiter"
 	"github.com/influxdata/influxdb/pkg/slices"
+	"github.com/influxdata/influxdb/pkg/verifhook"
 	"github.com/influxdata/influxdb/query"
 	internal "github.com/influxdata/influxdb/tsdb/internal"
 	"github.com/influxdata/influxql"
@@ -550,6 +551,9 @@ func (s *Shard) WritePointsWithContext(ctx context.Context, points []models.Poin
 	if err := s.createFieldsAndMeasurements(fieldsToCreate); err != nil {
 		return err
 	}
+	if verifhook.Enabled && len(fieldsToCreate) > 0 {
+		verifhook.Yield("shard.fields.created")
+	}
 
 	// see if our engine is capable of WritePointsWithContext
 	type contextWriter interface {
@@ -707,6 +711,10 @@ func (s *Shard) validateSeriesAndFields(points []models.Point) ([]models.Point, 
 				return nil, nil, err
 			}
 			continue
+		}
+
+		if verifhook.Enabled {
+			verifhook.Yield("shard.fields.validated", name)
 		}
 
 		points[j] = points[i]
